@@ -19,7 +19,7 @@ ASSUMPTIONS = []
 LOSSY = re.compile(r'^rust_decimal::Decimal::(round|round_dp|round_dp_with_strategy|round_sf|round_sf_with_strategy|trunc|trunc_with_scale|'
                    r'floor|ceil|rescale|normalize|from_f64_retain|from_f32_retain)$|ToPrimitive>::to_f(32|64)$|FromPrimitive>::from_f(32|64)$|'
                    r'ToPrimitive::to_f(32|64)$|FromPrimitive::from_f(32|64)$')
-FORMAT_SINK = re.compile(r'fmt::rt::Argument::<\'_>::new_(display|debug)|ToString::to_string$|fmt::Display::fmt$|fmt::Debug::fmt$|'
+FORMAT_SINK = re.compile(r'fmt::rt::Argument::<\'_>::(new_(display|debug)|from_usize)|ToString::to_string$|fmt::Display::fmt$|fmt::Debug::fmt$|'
                          r'to_string_min_precision$')
 PASS = {'clone', 'deref', 'borrow', 'as_ref', 'copied', 'cloned', 'unwrap', 'expect', 'branch', 'ok', 'unwrap_or', 'into', 'from',
         'ok_or', 'ok_or_else', 'map_err', 'from_output'}
@@ -461,7 +461,7 @@ def r6c(prog, rep, config):
     # the per-security accumulation loop has no skipping adaptor
     f = prog.fn('portfolio::cumulative_gains::calc_security_cumulative_capital_gains')
     if rep.anchor('calc_security_cumulative_capital_gains', f):
-        skip = [c for c in f.calls if c.short in ('filter', 'skip', 'take', 'step_by', 'skip_while', 'take_while', 'filter_map') and c.decl.startswith('std::iter::')]
+        skip = [c for c in f.calls if c.short in ('filter', 'skip', 'take', 'step_by', 'skip_while', 'take_while') and c.decl.startswith('std::iter::')]
         if skip:
             rep.violation('R6c', 'gains-loop-skips', where=skip[0].where(), fn=f.name, detail='the yearly accumulation skips elements (%s)' % skip[0].short)
         adds = [c for c in f.calls if re.search(r'AddAssign::add_assign$|ops::Add::add$', c.decl)]
